@@ -13,21 +13,21 @@ fn c15_upgrader_upgrade() {
 
     let r = Upgrader::upgrade(env.clone(), target.clone(), new_version.clone(), hash, data.clone());
 
-    assert!(shim::n_calls() >= 1 && shim::call_is(0, &target, "version", &()), "OBL C15.upgrader_reads_version_first");
+    soroban_sdk::obl!(shim::n_calls() >= 1 && shim::call_is(0, &target, "version", &()), "OBL C15.upgrader_reads_version_first");
     let v0: String = shim::call_ret(0);
     match r {
         Ok(()) => {
-            assert!(v0 != new_version, "OBL C15.upgrader_needs_different_version");
-            assert!(
+            soroban_sdk::obl!(v0 != new_version, "OBL C15.upgrader_needs_different_version");
+            soroban_sdk::obl!(
                 shim::n_calls() == 4 && shim::call_is(1, &target, "upgrade", &(hash,)) && shim::call_is(2, &target, "migrate", &data) && shim::call_is(3, &target, "version", &()),
                 "OBL C15.upgrader_call_sequence: exactly version, upgrade(requested hash), migrate(given data), version — in that order, all on the target"
             );
-            assert!(shim::call_ret::<String>(3) == new_version, "OBL C15.upgrader_ends_at_requested_version");
+            soroban_sdk::obl!(shim::call_ret::<String>(3) == new_version, "OBL C15.upgrader_ends_at_requested_version");
             kani::cover!(true, "COVER upgrader ok");
         }
         Err(e) => {
             let code = soroban_sdk::Error::from(&e).code();
-            assert!(
+            soroban_sdk::obl!(
                 (code == 1 && shim::n_calls() == 1 && v0 == new_version) || (code == 2 && shim::n_calls() == 4 && shim::call_ret::<String>(3) != new_version),
                 "OBL C15.upgrader_err_cases: Err (=> whole call tree rolled back) exactly for an unchanged version or an unexpected version after migration"
             );
@@ -35,5 +35,5 @@ fn c15_upgrader_upgrade() {
             kani::cover!(code == 2, "COVER upgrader unexpected version");
         }
     }
-    assert!(inst().n_changed() == 0 && pers().n_changed() == 0 && temp().n_changed() == 0 && shim::n_events() == 0 && shim::n_auth() == 0, "OBL C15.upgrader_stateless: the Upgrader itself keeps no state and demands no authorisation of its own (the target's upgrade/migrate demand the owner's)");
+    soroban_sdk::obl!(inst().n_changed() == 0 && pers().n_changed() == 0 && temp().n_changed() == 0 && shim::n_events() == 0 && shim::n_auth() == 0, "OBL C15.upgrader_stateless: the Upgrader itself keeps no state and demands no authorisation of its own (the target's upgrade/migrate demand the owner's)");
 }
